@@ -349,7 +349,28 @@ func runC10(c c10Case) vh.Result {
 				expect = firm + 1
 			}
 			ok := waitWire(expect)
-			time.Sleep(vh.Margin(12 * time.Millisecond)) // settle: anything beyond the expected elements shows up here
+			if firm == 0 && len(pending) > 0 {
+				// only the initial presence is unacknowledged: a client that holds it sends it again with an <r/>; wait
+				// for that, so that the late processing of this <a/> cannot overlap with the next operation
+				waitFor(vh.Margin(400*time.Millisecond), func() bool {
+					for _, e := range wire.snapshot()[consumed:] {
+						if e.Name.Local == "r" {
+							return true
+						}
+					}
+					return false
+				})
+			}
+			// settle: the <a/> is processed on its own goroutine; wait until wire and queue have been stable for a while
+			// (anything beyond the expected elements shows up here)
+			lastSig, lastChange := "", time.Now()
+			waitFor(vh.Margin(2*time.Second), func() bool {
+				sig := fmt.Sprint(len(wire.snapshot()), clientQueue())
+				if sig != lastSig {
+					lastSig, lastChange = sig, time.Now()
+				}
+				return time.Since(lastChange) > vh.Margin(25*time.Millisecond)
+			})
 			fresh := absorb()                          // retransmitted stanzas re-enter the model queue with their new wire index
 			var gotStanzas []string
 			nReq := 0
